@@ -322,9 +322,10 @@ class THandler(_hd.Handler):
         object.__setattr__(self, "_verif_ready", False)
         super().__init__(**kw)
         HANDLERS.append(self)
-        self._lock.tag = "h%d" % self._id
-        if self._queue_lock is not None:
-            self._queue_lock.tag = "q%d" % self._id
+        for attr, tag in (("_lock", "h%d"), ("_queue_lock", "q%d")):
+            lk = getattr(self, attr, None)
+            if isinstance(lk, Lock):         # a lock that did not come from the (shimmed) lock factory is left alone
+                lk.tag = tag % self._id
         object.__setattr__(self, "_precolorized_formats", TDict(self._precolorized_formats, "h%d.pre" % self._id))
         object.__setattr__(self, "_verif_ready", True)
         s = S()
@@ -641,8 +642,12 @@ class FakeMPLock(_Shared):
 class FakeContext(BaseContext):
     _name = "fake"
 
-    def __init__(self, capacity=None):
+    def __init__(self, capacity=None, start_method="fork"):
         self.capacity = capacity
+        self.start_method = start_method
+
+    def get_start_method(self, allow_none=False):
+        return self.start_method
 
     def SimpleQueue(self):
         return FakeQueue(self.capacity)
